@@ -316,6 +316,9 @@ void BppODiscreteDistributionFormat::writeDiscreteDistribution(
       out << ",";
     out << "n="  << dist.getNumberOfCategories();
     comma = true;
+    // The bounds of a uniform distribution are not parameters, but the reader requires them:
+    if (dynamic_cast<const UniformDiscreteDistribution*>(&dist))
+      out << ",begin=" << dist.getLowerBound() << ",end=" << dist.getUpperBound();
   }
 
   try
